@@ -32,9 +32,14 @@ structure Facts where
   tries : Nat      -- SendAndReceive: for i := 1; i <= tries; i++
   test : Nat       -- how a timeout is recognised (see SA.Model.DnsExchange)
   countPos : Nat   -- OutQueue.Write: 0 = count, then `if err != nil { return }`; 1 = return first
+  /-- the poll loop of `Handshake`'s goroutine: what it hands to `SendAndReceive`
+      (0 = `dc.out.NextChunk()`: the oldest unacknowledged fragment, nil when there is none; 1 = `nil`: a bare poll) -/
+  pollArg : Nat := 0
+  /-- statements of that loop which leave it other than through `for !dc.Closed()` (break / return / goto) -/
+  pollStops : Nat := 0
   deriving Repr, DecidableEq
 
-def Facts.gen : Facts := ⟨Cfg.gen, Gen.c07Tries, Gen.c07TimeoutTest, Gen.c07WriteCount⟩
+def Facts.gen : Facts := ⟨Cfg.gen, Gen.c07Tries, Gen.c07TimeoutTest, Gen.c07WriteCount, Gen.c07PollArg, Gen.c07PollStops⟩
 
 inductive WEv
   | w (k : Nat)   -- client Write of the next k upstream bytes
@@ -51,6 +56,8 @@ structure Core where
   /-- ghost: the SA.Queue events carried out so far, newest first -/
   evs : List Ev := []
   fates : List XF := []
+  /-- fate of a communicator call once the script is used up (`ok`; `dnspoll`: the state of the path) -/
+  dflt : XF := .ok
   calls : Nat := 0
 
 structure St where
@@ -82,7 +89,7 @@ def nextChunk (s : Core) : Core := Core.ap f mtu s (.xchg .ql)
 
 /-- one `dc.Query(req, …)`: the communicator's fate decides; Bool = the response was handled without error -/
 def tryOnce (s : Core) : Core × XF × Bool :=
-  let ft := s.fates.head?.getD .ok
+  let ft := s.fates.head?.getD s.dflt
   let s0 := { s with fates := s.fates.tail, calls := s.calls + 1 }
   match ft with
   | .ok =>
@@ -155,8 +162,64 @@ def settleU (s : St) : St :=
 
 def settle (s : St) : St := settleD (settleU f mtu (settleD s))
 
+/-! ### the poll loop (the goroutine `Handshake` starts)
+
+      for !dc.Closed() { <sleep>; if <no query for that long> { err := dc.SendAndReceive(<arg>); … } }
+
+  `<arg>` is the regenerated fact `pollArg`.  With `dc.out.NextChunk()` a turn retransmits the oldest
+  unacknowledged fragment — the only place where a fragment that a Write gave up on (five lost exchanges)
+  is ever sent again.  With `nil` the turn is a bare poll: it acknowledges and fetches, and sends nothing;
+  that exchange is not one of SA.Queue's events (`bareXchg`, not recorded in `evs`). -/
+
+/-- a query that carries an acknowledgement and no fragment: `SendAndReceive(nil)` (no `NextChunk`, so no
+    `cleanAckedChunks` at the client either) -/
+def bareQuery (c : Cfg) (e : End) : Query := ⟨ackOf c e.inq.next, none, e.inq.cnt, e.outq.hd⟩
+
+/-- one bare exchange: `handled` = the query reached the server, `answered` = the answer came back;
+    Bool = the response was handled without error -/
+def bareXchg (c : Cfg) (st : Sys) (handled answered : Bool) : Sys × Bool :=
+  if handled then
+    let r := serve c st.b (bareQuery c st.a)
+    if answered then
+      let a := clientRecv c st.a r.2
+      ({ st with a := a.1, b := r.1 }, a.2)
+    else ({ st with b := r.1 }, false)
+  else (st, false)
+
+def tryOnceBare (s : Core) : Core × XF × Bool :=
+  let ft := s.fates.head?.getD s.dflt
+  let s0 := { s with fates := s.fates.tail, calls := s.calls + 1 }
+  match ft with
+  | .ok => let r := bareXchg f.cfg s0.sys true true; ({ s0 with sys := r.1 }, ft, r.2)
+  | .al => ({ s0 with sys := (bareXchg f.cfg s0.sys true false).1 }, ft, false)
+  | _ => (s0, ft, false)
+
+def sendRecvBare : Nat → Core → Core × Bool
+  | 0, s => (s, true)
+  | left + 1, s =>
+    let r := tryOnceBare f s
+    match r.2.1 with
+    | .ok => (r.1, r.2.2)
+    | .er => (r.1, false)
+    | _ =>
+      if f.test = 1 then (if left = 0 then (r.1, false) else sendRecvBare left r.1)
+      else (r.1, false)
+
+/-- the body of one turn of the loop; Bool = `SendAndReceive` returned nil -/
+def pollBody (s : Core) : Core × Bool :=
+  if f.pollArg = 0 then sendRecv f mtu f.tries (nextChunk f mtu s) else sendRecvBare f f.tries s
+
+/-- `n` turns of the loop.  A turn whose body failed ends the loop when the source has a statement that
+    leaves it (`pollStops ≠ 0`); the regenerated loop has none: it goes on for as long as the connection
+    is open. -/
+def pollLoop : Nat → Core → Core
+  | 0, s => s
+  | n + 1, s =>
+    let r := pollBody f mtu s
+    if r.2 = false ∧ f.pollStops ≠ 0 then r.1 else pollLoop n r.1
+
 def poll (s : St) : St :=
-  let r := sendRecv f mtu f.tries (nextChunk f mtu s.core)
+  let r := pollBody f mtu s.core
   St.say { s with core := r.1 } (if r.2 then "pk" else "pe")
 
 def stepW (s : St) : WEv → St
@@ -245,5 +308,96 @@ def handleWith (f : Facts) (toks : List String) : String :=
   | _ => "bad-op"
 
 def handle (toks : List String) : String := handleWith Facts.gen toks
+
+/-! ## `dnspoll`: histories in which only the client's own poll loop moves what is left over
+
+  `dnspoll mtu=<m> <event>*` — `L<q|a|s|e>`: from now on every communicator call has that fate (`dflt`);
+  `H`: the path heals and the loop turns until nothing is outstanding (`tail`, i.e. `poll` + the Writes it
+  releases).  While the path is down the loop's turns change nothing that is printed (they fail, or — answer
+  lost — repeat what the Write's own attempts already delivered), so they are not run; reads are not looked
+  at then.  The poll tokens are not printed: how often the real loop fired is a matter of timing. -/
+
+inductive PEv
+  | ev (e : WEv)
+  | L (kind : XF)
+  | H
+  deriving Repr
+
+def parsePEv (t : String) : Option PEv :=
+  if t = "H" then some .H
+  else if t = "Lq" then some (.L .ql) else if t = "La" then some (.L .al)
+  else if t = "Ls" then some (.L .st) else if t = "Le" then some (.L .er)
+  else match parseEv t with
+    | some (.w k) => some (.ev (.w k))
+    | some (.W k) => some (.ev (.W k))
+    | some (.r k) => some (.ev (.r k))
+    | some (.R k) => some (.ev (.R k))
+    | _ => none
+
+structure PSt where
+  st : St
+  lossy : Bool := false
+  hang : Bool := false
+  toks : List String := []   -- newest first
+
+section pollmodel
+variable (f : Facts) (mtu : Nat)
+
+/-- the path is healthy: the loop turns until nothing is outstanding; result: the Writes that returned
+    (client's first) and whether something is still outstanding when the fuel is used up -/
+def rest (s : St) : St × String × Bool :=
+  let s0 := settle f mtu { s with tr := [] }
+  let y := s0.core.sys
+  let s1 := tail f mtu (y.a.outq.out.length + y.b.outq.out.length + 8) s0
+  let ts := s1.tr.reverse.filter (fun t => t.startsWith "+")
+  (s1, String.join (ts.filter (fun t => t.startsWith "+w") ++ ts.filter (fun t => t.startsWith "+W")), outstanding s1)
+
+def stepP (p : PSt) : PEv → PSt
+  | .L kind => { p with st := { p.st with core := { p.st.core with dflt := kind } }, lossy := true, toks := "L" :: p.toks }
+  | .H =>
+    let r := rest f mtu { p.st with core := { p.st.core with dflt := .ok } }
+    { p with st := r.1, lossy := false, hang := p.hang || r.2.2, toks := ("H" ++ r.2.1) :: p.toks }
+  | .ev e =>
+    match e, p.lossy with
+    | .r _, true => { p with toks := "r-" :: p.toks }
+    | .R _, true => { p with toks := "R-" :: p.toks }
+    | _, _ =>
+      let s1 := stepW f mtu { p.st with tr := [] } e
+      let t := String.join s1.tr.reverse
+      if t = "Wp" ∧ p.lossy = false then
+        let r := rest f mtu s1
+        { p with st := r.1, hang := p.hang || r.2.2, toks := (t ++ r.2.1) :: p.toks }
+      else { p with st := s1, toks := t :: p.toks }
+
+def runP (p : PSt) : List PEv → PSt
+  | [] => p
+  | e :: es => if p.hang then p else runP (stepP f mtu p e) es
+
+end pollmodel
+
+def handlePollWith (f : Facts) (toks : List String) : String :=
+  match toks with
+  | t1 :: rest =>
+    match kv "mtu" t1 with
+    | some mtu =>
+      if mtu = 0 ∨ mtu > 100 then "bad-op" else
+      match rest.mapM parsePEv with
+      | some evs =>
+        let p1 := runP f mtu { st := start 0 0 [] } evs
+        if p1.hang then "HANG" else
+        let p2 := stepP f mtu p1 .H
+        if p2.hang then "HANG" else
+        let z := p2.st.core.sys
+        let ts := match p2.toks with
+          | t :: ts => ("|" ++ t) :: ts
+          | [] => []
+        String.intercalate " " ts.reverse ++ " accU=" ++ toString p2.st.posU ++ " relU=" ++ digest z.b.inq.rel
+          ++ " accD=" ++ toString p2.st.posD ++ " relD=" ++ digest z.a.inq.rel
+          ++ " out=" ++ natList (z.a.outq.out.map (·.seq)) ++ "/" ++ natList (z.b.outq.out.map (·.seq))
+      | none => "bad-op"
+    | none => "bad-op"
+  | _ => "bad-op"
+
+def handlePoll (toks : List String) : String := handlePollWith Facts.gen toks
 
 end SA.DnsWrites
